@@ -154,6 +154,20 @@ func propC07(c *Ctx) {
 					bad := ""
 					for _, rd := range reads {
 						if re, _ := reach(siteOf(call), isInstr(rd), newCuts().addEdges(falseEdges)); re {
+							// a read of the element whose own Exists() was just tested false, in the same iteration
+							own := false
+							if fa, isFA := rd.(*ssa.FieldAddr); isFA {
+								if ia, isIA := fa.X.(*ssa.IndexAddr); isIA {
+									for _, g := range elemGuards[fn] {
+										if (ia.X == g.slice || sameVar(ia.X, g.slice)) && ia.Index == g.index && guardedByEdges(fn, rd, g.edges) {
+											own = true
+										}
+									}
+								}
+							}
+							if own {
+								continue
+							}
 							bad = w.Pos(instrPos(rd))
 							break
 						}
@@ -602,6 +616,15 @@ func shortType(t types.Type) string {
 // existsFalseEdges: edges after which Error.Exists() of the response is known false.
 // For a batch: the exit edge of a loop over the whole slice whose body tests Exists()
 // of the indexed element and leaves on true.
+// elemGuards: for batch responses, the Exists()==false edges of ONE element (slice, index): a read of that
+// very element behind them is after its own test, also while the loop over the batch is still running
+type elemGuard struct {
+	slice, index ssa.Value
+	edges        []Edge
+}
+
+var elemGuards = map[*ssa.Function][]elemGuard{}
+
 func existsFalseEdges(fn *ssa.Function, r respRoot, existsFn, recorder *ssa.Function) ([]Edge, string) {
 	var out []Edge
 	detail := "no Exists() call on this response"
@@ -669,6 +692,7 @@ func existsFalseEdges(fn *ssa.Function, r respRoot, existsFn, recorder *ssa.Func
 		if !ok {
 			continue
 		}
+		elemGuards[fn] = append(elemGuards[fn], elemGuard{ia.X, ia.Index, fl})
 		hdrExit := loopExitEdges(fn, ia.Index, r.val)
 		if len(hdrExit) == 0 {
 			detail = "Exists() is tested on one element only, not in a loop over the whole slice"
